@@ -617,7 +617,8 @@ func run(r *hx.Run) error {
 	// Bounded-exhaustive two-frame histories on a 1-row screen: frame 1 places two glyphs,
 	// frame 2 (after a Clear or not) places two more. 5 graphemes × 3 styles.
 	gs := []string{"a", "世", "", " ", "\U0001F525"}
-	sts := []vaxis.Style{{}, {Foreground: vaxis.IndexColor(1), Hyperlink: "http://a"}, {Attribute: vaxis.AttrBold, Background: vaxis.RGBColor(1, 2, 3), Hyperlink: "http://a"}}
+	sts := []vaxis.Style{{}, {Foreground: vaxis.IndexColor(1), Hyperlink: "http://a"}, {Attribute: vaxis.AttrBold, Background: vaxis.RGBColor(1, 2, 3), Hyperlink: "http://a"},
+		{UnderlineStyle: vaxis.UnderlineCurly, UnderlineColor: vaxis.RGBColor(9, 8, 7), Hyperlink: "http://a", HyperlinkParams: "id=1;x"}}
 	n := 0
 	cols := 4
 	limit := 400
